@@ -50,6 +50,15 @@ def getattr_(I, st, ov, attr, ctx):
                 return [(st, fresh_field(I, st, h, ov, attr))]
             return [(st, Raise("AttributeError"))]
         if h.kind in ("list", "dict"):
+            if attr in h.fields and not str(attr).startswith("$"):
+                return [(st, h.fields[attr])]
+            if h.cls and I.src.module_of_class(h.cls) is not None:
+                found = I.src.find_method(h.cls, attr)
+                if found is not None:
+                    c, m, fd = found
+                    if "property" in _decos(fd):
+                        return I.call(I.bound_method(ov, found), [], {}, st, ctx)
+                    return [(st, I.bound_method(ov, found))]
             return [(st, FuncV("builtin", name="%s.%s" % (h.kind, attr), self=ov))]
     if isinstance(ov, ClsV):
         r = cls_getattr(I, st, ov, attr, ctx)
@@ -235,6 +244,11 @@ def getitem(I, st, ov, kv, ctx):
                 else:
                     out.append((q, Raise("KeyError")))
             return out
+        if h.kind in ("list", "dict") and h.cls and I.src.module_of_class(h.cls) is not None \
+                and ctx.get("owner") != h.cls:
+            f = I.src.find_method(h.cls, "__getitem__")
+            if f:
+                return I.call(I.bound_method(ov, f), [kv], {}, st, ctx)
         if h.kind == "list":
             its = h.fields.get("$items")
             if isinstance(kv, Conc) and isinstance(kv.py, int):
@@ -279,6 +293,11 @@ def getslice(I, st, ov, sl, ctx):
 def setitem(I, st, ov, kv, v, ctx):
     if isinstance(ov, Ref):
         h = st.heap[ov.oid]
+        if h.kind in ("list", "dict") and h.cls and I.src.module_of_class(h.cls) is not None \
+                and ctx.get("owner") != h.cls:
+            f = I.src.find_method(h.cls, "__setitem__")
+            if f:
+                return I.call(I.bound_method(ov, f), [kv, v], {}, st, ctx)
         if h.kind == "dict":
             dict_store(I, st, ov, kv, v)
             return [(st, Conc(None))]
